@@ -194,9 +194,9 @@ def run_timeout():
     the simulated terminal already turns endless reading or writing into a verdict, so what is left for
     this limit is code that spins or blocks without any I/O."""
     try:
-        return float(os.environ.get("VERIF_RUN_TIMEOUT_S", "") or 45.0)
+        return float(os.environ.get("VERIF_RUN_TIMEOUT_S", "") or 90.0)
     except ValueError:
-        return 45.0
+        return 90.0
 
 
 def _hang_outcome(eng, index, make_engine, eparams, limit):
